@@ -226,11 +226,13 @@ def run_cases(ctx, cases):
 
 def run(ctx):
     ctx.make_overlay(need_kernel=True)
-    ok_t = ctx.regen_all(needed=("py2v_batch.py",))
+    ctx.regen_all(needed=("py2v_batch.py", "py2v_runworker.py"))
+    ok_t = ctx.translator_ok["py2v_batch.py"]
     if ok_t:
         ok_t = ctx.build_models(MODELS)
     if ok_t:
         ctx.build_props()
+        ctx.build_props("Props/C16g.vo")  # run_worker as generated from the source = the hand model over the generated batch_tasks
     else:
         ctx.obligations += 1
     n_eval = n_nt = 0
